@@ -26,12 +26,9 @@ ObsMatches(S2, o) == /\ \A e \in Entities : {<<x[1], x[2]>> : x \in ToSet(o.cur[
 SizesMatch(S2, o) == /\ o.nt = Cardinality(S2.tags) /\ o.ne = Cardinality(S2.edits)
                      /\ o.nc = Cardinality(S2.cur)
                      /\ \A e \in Entities : ToSet(o.cur[e]) = CurrentBag(S2, e)
-StepOK == l <= Len(Steps) /\ ObsMatches(Apply(s, Steps[l].op), Steps[l].obs)
-
-TStep == /\ StepOK
-         /\ s' = Apply(s, Steps[l].op) /\ lastop' = Steps[l].op /\ nops' = nops + 1
-         /\ drift' = (drift \/ ~SizesMatch(s', Steps[l].obs))
-         /\ l' = l + 1 /\ tid' = tid
+\* one model call per step: S2 is evaluated once and used for the comparison and for the successor
+More == l <= Len(Steps)
+Next2 == IF More THEN Apply(s, Steps[l].op) ELSE s
 
 \* the recorded graph
 ObsEdges == ToSet(Cur.edges)
@@ -47,12 +44,17 @@ ObsGraphMatches == /\ {ObsId(i) : i \in 1..Len(Cur.nodes)} = s.tags
 Verdict == IF l <= Len(Steps) THEN "step" ELSE IF ~ObsAcyclic THEN "cyclic" ELSE "ok"
 FinalDrift == l > Len(Steps) /\ ObsAcyclic /\ ~ObsGraphMatches
 
-TNextTrace == /\ ~StepOK
-              /\ PrintT("VERDICT " \o ToJson(<<tid, Verdict, l, IF drift \/ FinalDrift THEN 1 ELSE 0,
-                                               SetToSeq(s.dev)>>))
-              /\ tid < Len(Traces)
-              /\ tid' = tid + 1 /\ l' = 1 /\ s' = Empty /\ nops' = 0 /\ lastop' = NoOp /\ drift' = FALSE
-TNext == TStep \/ TNextTrace
+TNext ==
+  LET S2 == Next2
+      ok == More /\ ObsMatches(S2, Steps[l].obs)
+  IN IF ok
+     THEN /\ s' = S2 /\ lastop' = Steps[l].op /\ nops' = nops + 1
+          /\ drift' = (drift \/ ~SizesMatch(S2, Steps[l].obs))
+          /\ l' = l + 1 /\ tid' = tid
+     ELSE /\ PrintT("VERDICT " \o ToJson(<<tid, Verdict, l, IF drift \/ FinalDrift THEN 1 ELSE 0,
+                                            SetToSeq(s.dev)>>))
+          /\ tid < Len(Traces)
+          /\ tid' = tid + 1 /\ l' = 1 /\ s' = Empty /\ nops' = 0 /\ lastop' = NoOp /\ drift' = FALSE
 TSpec == TInit /\ [][TNext]_tvars
 
 \* the action properties of Tags.tla restated over the trace run (a new trace resets the tables)
